@@ -204,3 +204,94 @@ Section BYCW.
     apply by_constituency_wf.
   Qed.
 End BYCW.
+
+(* ------------------------------------------------------------------ the calculator with highest averages *)
+Definition cty_list (votes : list (Cty * list (C * Q))) (prev : list (Cty * list (pk * Z))) : list Cty :=
+  nodup Pos.eq_dec (map fst votes ++ map fst prev).
+Lemma cty_list_nodup votes prev : NoDup (cty_list votes prev).
+Proof. apply NoDup_nodup. Qed.
+Lemma cty_list_votes votes prev : incl (map fst votes) (cty_list votes prev).
+Proof. intros c Hc. apply nodup_In, in_app_iff. left. exact Hc. Qed.
+Lemma cty_list_prev votes prev : incl (map fst prev) (cty_list votes prev).
+Proof. intros c Hc. apply nodup_In, in_app_iff. right. exact Hc. Qed.
+
+Lemma lobc_res_wf dc a votes n res :
+  constituency_evaluator pk_eqb (ha_eval dc) PK a votes n = Ok res -> NoDup (map fst votes) ->
+  wf_res pk_eqb res /\ nonneg_nested res /\ incl (map fst res) (map fst votes).
+Proof.
+  intros H Hn.
+  destruct (constituency_evaluator_wf pk_eqb (ha_eval dc)
+              (fun r => pknodup r /\ Forall (fun kv : pk * Z => 0 <= snd kv) r)
+              (ha_eval_wf dc) (conj I (Forall_nil _)) PK a votes n res H Hn) as (H1 & H2 & H3).
+  split; [split; [exact H1|]|split; [|exact H2]].
+  - eapply Forall_impl; [|exact H3]. intros cd [Hd _]. exact Hd.
+  - unfold nonneg_nested. eapply Forall_impl; [|exact H3]. intros cd [_ Hd]. exact Hd.
+Qed.
+
+(* every divisor, both kinds of apportioner, both kinds of overall evaluator *)
+Theorem lobc_calculate_meaning dc a o fuel votes n prev r :
+  NoDup (map fst votes) -> wf_prev pk_eqb prev ->
+  lobc_calculate dc a o fuel votes n prev = BC_ok r ->
+  exists res, constituency_evaluator pk_eqb (ha_eval dc) PK a votes n = Ok res /\
+    0 <= r /\
+    (exists pr, lobc_overall dc a o votes (n - drop_of pk_eqb res prev + r) = Ok pr /\
+       forall k, tier pk_eqb res k = true -> need pk_eqb res prev (cty_list votes prev) k <= kget0 pk_eqb pr k) /\
+    (forall x, 0 <= x < r -> exists ph, lobc_overall dc a o votes (n - drop_of pk_eqb res prev + x) = Ok ph /\
+       exists k, tier pk_eqb res k = true /\ kget0 pk_eqb ph k < need pk_eqb res prev (cty_list votes prev) k).
+Proof.
+  intros Hn Hwp H. unfold lobc_calculate in H.
+  destruct (bc_calculate_meaning pk_eqb pk_eqb_refl pk_eqb_sym pk_eqb_trans _ _ fuel n prev r (cty_list votes prev) H)
+    as (res & Hc & Hr & Hrest).
+  exists res. split; [exact Hc|]. split; [exact Hr|].
+  destruct (lobc_res_wf dc a votes n res Hc Hn) as (Hw & _ & Hincl).
+  apply Hrest; [exact Hw|exact Hwp|apply cty_list_nodup| |apply cty_list_prev].
+  eapply incl_tran; [exact Hincl|apply cty_list_votes].
+Qed.
+
+(* zero adjustment: given overall evaluator *)
+Theorem lobc_zero_given dc dn a fuel votes n prev res pr :
+  NoDup (map fst votes) -> wf_prev pk_eqb prev ->
+  constituency_evaluator pk_eqb (ha_eval dc) PK a votes n = Ok res ->
+  no_overhang pk_eqb res prev ->
+  ha_eval dn (qtotals votes) n = Ok pr ->
+  (forall k, tier pk_eqb res k = true ->
+     zsumf (fun c => share pk_eqb res c k) (cty_list votes prev) <= kget0 pk_eqb pr k) ->
+  lobc_calculate dc a (Ov_given dn) fuel votes n prev = BC_ok 0.
+Proof.
+  intros Hn Hwp Hc Hno He Hcov. unfold lobc_calculate. rewrite Hc.
+  destruct (lobc_res_wf dc a votes n res Hc Hn) as (Hw & Hnn & Hincl).
+  apply (bc_calculate_zero pk_eqb pk_eqb_refl pk_eqb_sym pk_eqb_trans _ res fuel n prev pr (cty_list votes prev));
+    try assumption; [apply cty_list_nodup| |apply cty_list_prev].
+  eapply incl_tran; [exact Hincl|apply cty_list_votes].
+Qed.
+
+(* zero adjustment: default overall evaluator (the merged constituency results): no further condition *)
+Theorem lobc_zero_default dc a fuel votes n prev res :
+  NoDup (map fst votes) -> wf_prev pk_eqb prev ->
+  constituency_evaluator pk_eqb (ha_eval dc) PK a votes n = Ok res ->
+  no_overhang pk_eqb res prev ->
+  lobc_calculate dc a Ov_default fuel votes n prev = BC_ok 0.
+Proof.
+  intros Hn Hwp Hc Hno. unfold lobc_calculate. rewrite Hc.
+  destruct (lobc_res_wf dc a votes n res Hc Hn) as (Hw & Hnn & Hincl).
+  assert (Hir : incl (map fst res) (cty_list votes prev)) by (eapply incl_tran; [exact Hincl|apply cty_list_votes]).
+  apply (bc_calculate_zero pk_eqb pk_eqb_refl pk_eqb_sym pk_eqb_trans _ res fuel n prev
+           (ktotals pk_eqb (map snd res)) (cty_list votes prev));
+    try assumption; [apply cty_list_nodup|apply cty_list_prev| |].
+  - unfold lobc_overall. rewrite Hc. reflexivity.
+  - intros k _. rewrite (ktotals_share pk_eqb pk_eqb_sym pk_eqb_trans res (cty_list votes prev) k Hw (cty_list_nodup _ _) Hir). lia.
+Qed.
+
+(* out of fuel, and independence of the fuel *)
+Theorem lobc_fuel_iff dc a o fuel votes n prev res :
+  constituency_evaluator pk_eqb (ha_eval dc) PK a votes n = Ok res ->
+  (lobc_calculate dc a o fuel votes n prev = BC_fuel <->
+   forall x, 0 <= x <= Z.of_nat fuel ->
+     exists ph, lobc_overall dc a o votes (n - drop_of pk_eqb res prev + x) = Ok ph /\
+                ksatisfied pk_eqb (lowest_allowed pk_eqb res prev) ph = false).
+Proof. intros Hc. unfold lobc_calculate. rewrite Hc. apply bc_calculate_fuel_iff. Qed.
+
+Theorem lobc_fuel_mono dc a o fuel fuel' votes n prev : (fuel <= fuel')%nat ->
+  lobc_calculate dc a o fuel votes n prev <> BC_fuel ->
+  lobc_calculate dc a o fuel' votes n prev = lobc_calculate dc a o fuel votes n prev.
+Proof. intros Hle. unfold lobc_calculate. apply bc_calculate_fuel_mono. exact Hle. Qed.
